@@ -81,9 +81,9 @@ def doForward (a : Json) : Except String Json := do
   | none => pure <| J.obj [("accepted", J.bool false), ("upgrade", J.bool upgrade)]
   | some u =>
     let resp := relayResponse closeIdle upStatus upLines upBody
-    let upParsed := parseHeaders upLines
+    let upParsed := upstreamResponseHeaders upLines
     let canonU : UpReq := { u with headers := canonReqHeaders r.lines u.headers }
-    let canonR : Resp := { resp with headers := canonRespHeaders upParsed resp.headers }
+    let canonR : Resp := { resp with headers := canonRespHeaders upStatus upParsed resp.headers }
     pure <| J.obj [
       ("accepted", J.bool true), ("upgrade", J.bool upgrade),
       ("upgradeType", J.hex (upgradeType (director h0))),
